@@ -48,6 +48,32 @@ def sum (bs : Bytes) : String := s!"{bs.length}:{hexNat (Toy.fnv 146959810393466
 
 def sums (l : List Bytes) : String := if l.isEmpty then "-" else ",".intercalate (l.map sum)
 
+/-- a source script: `100,0,50e,20x` = results of 100, 0, 50 (together with `io.EOF`) and 20 (together
+with another error) bytes cut from `d`; what is left of `d` is a last result without error -/
+def parseItems (spec : String) (d : Bytes) : Option Src :=
+  let rec go : List String → Bytes → Option Src
+    | [], d => some (if d.isEmpty then [] else [⟨d, none⟩])
+    | t :: ts, d =>
+      let (num, e) : String × Option Err :=
+        if t.endsWith "e" then (t.dropRight 1, some .eof)
+        else if t.endsWith "x" then (t.dropRight 1, some .srcErr) else (t, none)
+      match num.toNat? with
+      | none => none
+      | some n => (go ts (d.drop n)).map (fun r => ⟨d.take n, e⟩ :: r)
+  if spec == "-" then go [] d else go (spec.splitOn ",") d
+
+/-- a sink script: `70000,100e` = a `Write` that takes up to 70000 bytes without error, then one that
+takes 100 bytes and returns an error -/
+def parseSink (spec : String) : Option (List SinkRes) :=
+  if spec == "-" then some [] else
+  (spec.splitOn ",").mapM fun t =>
+    let (num, e) := if t.endsWith "e" then (t.dropRight 1, true) else (t, false)
+    num.toNat?.map (fun n => ⟨n, e⟩)
+
+def retName : Option Err → String
+  | none => "ok"
+  | some e => e.name
+
 /-- cut `d` into pieces of the given sizes (the last piece takes the rest) -/
 def cutBy : List Nat → Bytes → List Bytes
   | [], d => if d.isEmpty then [] else [d]
@@ -138,10 +164,11 @@ def stepSess (all : St) (s : Sess) : List String → Option (Sess × String)
     let d ← parseData d; let w ← s.cw
     let (segs, w') := w.emit C (writeChunks d)
     some ({ s with c2s := s.c2s ++ segs, cw := some w' }, s!"segs {sums segs}")
-  | ["creadfrom", d, sizes] => do
-    let d ← parseData d; let sizes ← parseCsvNat sizes; let w ← s.cw
-    let (segs, w') := w.emit C (readFromChunks Gen.C01.streamMaxPayloadSize (cutBy sizes d))
-    some ({ s with c2s := s.c2s ++ segs, cw := some w' }, s!"segs {sums segs}")
+  | ["creadfrom", d, items] => do
+    let d ← parseData d; let src ← parseItems items d; let w ← s.cw
+    let (cs, e, _) := connReadFrom src
+    let (segs, w') := w.emit C cs
+    some ({ s with c2s := s.c2s ++ segs, cw := some w' }, s!"segs {sums segs} ret={retName e}")
   | ["strip", ipsk, next] => do
     let ipsk ← parseData ipsk; let next ← parseData next
     match relayStrip C s.ccfg.reqPrefix.length s.ccfg.psk.length ipsk next s.c2s.flatten with
@@ -169,6 +196,14 @@ def stepSess (all : St) (s : Sess) : List String → Option (Sess × String)
     let r ← s.sr
     let (o, r') := r.step C .tunnel
     some ({ s with sr := some r' }, showOut o)
+  | ["swritetosink", sink] => do
+    let sink ← parseSink sink; let r ← s.sr
+    let (o, r') := r.writeToSink C sink
+    some ({ s with sr := some r' }, showOut o)
+  | ["cwritetosink", now, sink] => do
+    let now ← now.toInt?; let sink ← parseSink sink; let c ← s.cr
+    let (o, c') := c.writeToSinkS C now sink
+    some ({ s with cr := some c' }, showOut o)
   | ["reqcheck"] => do
     let (a, u) ← s.req
     -- what the holder of the request sees now: the bytes the request was parsed from have been overwritten
@@ -178,11 +213,11 @@ def stepSess (all : St) (s : Sess) : List String → Option (Sess × String)
     let (segs, w') := w.write C ch d
     some ({ s with s2c := s.s2c ++ segs, sw := some w' },
       s!"{if CapsOk w.respPrefix.length w.psk.length ch then "ok" else "bad-choice"} segs {sums segs}")
-  | ["sreadfrom", d, sizes, salt, ts, capW, capBig] => do
-    let d ← parseData d; let sizes ← parseCsvNat sizes; let ch ← parseResp salt ts capW capBig; let w ← s.sw
-    let (segs, w') := w.readFrom C ch (cutBy sizes d)
+  | ["sreadfrom", d, items, salt, ts, capW, capBig] => do
+    let d ← parseData d; let src ← parseItems items d; let ch ← parseResp salt ts capW capBig; let w ← s.sw
+    let (segs, w', e, _) := w.readFrom C ch src
     some ({ s with s2c := s.s2c ++ segs, sw := some w' },
-      s!"{if CapsOk w.respPrefix.length w.psk.length ch then "ok" else "bad-choice"} segs {sums segs}")
+      s!"{if CapsOk w.respPrefix.length w.psk.length ch then "ok" else "bad-choice"} segs {sums segs} ret={retName e}")
   | ["cseg", first, u, touts] => do
     -- first segment of `first` bytes, the rest in segments of `u` bytes (0: one segment); read deadlines at `touts`
     let first ← first.toNat?; let u ← u.toNat?; let touts ← parseCsvNat touts
